@@ -106,7 +106,7 @@ def main():
     m = {
         'version': 1,
         'setup_cmd': ('/venv/bin/pip install -q --no-index --find-links '
-                      '/opt/veriftools/wheels --target /verif/.deps '
+                      '/opt/veriftools/wheels --target .deps '
                       'icontract deal'),
         'hooks': {
             'guard': 'MISTRAL_VERIF',
